@@ -276,10 +276,44 @@ def history_array_rules(prog, ctx, rule):
         else:
             ctx.fail(rule, "early return in the drop-in loop releases the directory listing", r.where,
                      "return without releasing %s" % ("the remaining entries" if doms else "the scandir array"), key="dirent-leak-return")
+    # the bail-out loops start with the entry of the current round: its own free(de[i]) stands at the end of the round and has not run yet
+    from sa import loops as _loops9
+    for l9 in loops:
+        if l9 is main or not l9.within(main) or not any(c9.within(l9) for c9 in frees_elem):
+            continue
+        sh9 = _loops9.for_shape(l9)
+        if not sh9.ok or ivar is None:
+            continue
+        already = any(cfg.node_dominates(c9, l9.child("cond")) for c9 in same_iter_free if l9.child("cond") is not None)
+        if sh9.start == ivar or (already and sh9.start == "%s + 1" % ivar):
+            ctx.ok(rule, "the bail-out loop releases the entries from the current one on", l9.where, sh9.describe())
+        elif sh9.start == "%s + 1" % ivar:
+            ctx.fail(rule, "the bail-out loop releases the entries from the current one on", l9.where,
+                     "the loop is %s: %s[%s] - the entry of the failing file, whose free() at the end of the round is skipped by the return - leaks" % (
+                         sh9.describe(), de, ivar), key="dirent-leak-current")
     # (2) history array in the builder: free(*key_files) sites
     h = prog.fn("readConfigHistoryWithCallback")
     ctx.touch(h)
     hcfg = h.cfg
+    # the loops that release the collected objects cover the slots in use, [0, *size - 1): the last slot is the spare one the next
+    # object would go into - NULL at first, whatever realloc() returned after the array has grown
+    for l9 in h.walk():
+        if l9.k != "ForStmt":
+            continue
+        rel9 = [x for x in l9.walk() if x.k == "CallExpr" and x.j.get("callee") in ("econf_freeFile", "econf_free") and x.call_args()
+                and render(x.call_args()[0]).startswith("(*key_files)[")
+                and next((a9 for a9 in x.ancestors() if a9.k in ("ForStmt", "WhileStmt", "DoStmt")), None) is l9]
+        if not rel9:
+            continue
+        sh9 = _loops9.for_shape(l9)
+        if sh9.ok and sh9.step > 0 and sh9.start == "0" and sh9.cmp == "<" and sh9.bound in ("*size - 1", "(*size) - 1"):
+            ctx.ok(rule, "the release loop covers the slots in use", l9.where, sh9.describe())
+        elif sh9.ok and sh9.step > 0 and sh9.start == "0" and ((sh9.cmp == "<" and sh9.bound in ("*size", "(*size)")) or (sh9.cmp == "<=" and "size" in sh9.bound)):
+            ctx.fail(rule, "the release loop covers the slots in use", l9.where,
+                     "%s: the loop also releases the spare slot behind the collected objects - uninitialised memory once the array has grown (a failing file that is "
+                     "not the first drop-in)" % sh9.describe(), key="history-spare-slot")
+        else:
+            ctx.inconclusive(rule, "the release loop covers the slots in use", l9.where, sh9.describe())
     trav = h.calls("traverse_conf_dirs")
     if len(trav) != 1:
         raise Inconclusive("history builder: traverse_conf_dirs call not found")
@@ -512,6 +546,14 @@ def c13_e3(prog, ctx):
     rederive_gate_summary(prog, ctx, "E3")
     nothing_on_failure(prog, ctx, "E3")
     no_early_success(prog, ctx, "E3")
+    # the clean-up after a failing n-th file releases what was collected and nothing else: the error code comes back, not a crash
+    from sa.report import Ctx as _Ctx9
+    sub9 = _Ctx9(ctx.prop, ctx.tier, prog)
+    history_array_rules(prog, sub9, "E3")
+    for ob in sub9.obs:
+        if "release loop" in ob.instance or "bail-out loop" in ob.instance:
+            ob.instance = "a failing n-th file is reported, not crashed on: " + ob.instance
+            ctx.obs.append(ob)
 
 
 def c15_o4(prog, ctx):
